@@ -275,6 +275,18 @@ def family_multi(thorough):
             Wa = wf('Wa', [], [('x', 'K', {'src': '<w/x>:ref', 'm': 'two'}), ('w', 'Wb', {})])
             main = wf('main', [], [('x', 'K', {'src': '"<w>"/x/o.txt:output', 'm': 'one'}), ('w', 'Wa', {})])
         yield item('multi', 'three-depths-%s' % direction, ns('main', {}, [main, Wa, Wb], [K]), rep=True)
+    # producers at overlapping locations (u/p and u/u/p), paths spelled like step names
+    Ua = wf('Ua', [], [('p', 'P', {'m': 'inner'})])
+    Ub = wf('Ub', [], [('u', 'Ua', {}), ('p', 'P', {'m': 'outer'})])
+    for i, (ra, rb) in enumerate([('<u/p>:ref', '<u/u/p>'), ('<u/u/p>:output', '"<u>"/p'), ('<u/p/u/p>:ref', '<u/u/p/p>'),
+                                  ('"<u/p>"/u:copy', '<u>/u/p/u/u'), ('<u/p/c>:ref', '"<u/u>"/p/k')]):
+        main = wf('main', [], [('u', 'Ub', {}), ('c', 'C', {'src': '<u/p>:ref'}), ('k', 'CC', {'sa': ra, 'sb': rb})])
+        yield item('multi', 'overlapping-locations-%d' % i, ns('main', {}, [main, Ua, Ub], [P, C, C2]), rep=(i == 0))
+    # one parameter that carries a reference, forwarded to two consumers with different suffixes
+    Tx = wf('Tx', [('src', NODEF)], [('c', 'C', {'src': '%(src)s/a.txt:ref'}), ('d', 'C', {'src': '"%(src)s"/b.txt:output'}),
+                                     ('k', 'CC', {'sa': '%(src)s:copy', 'sb': '%(src)s/c'})])
+    main = wf('main', [], [('p', 'P', {}), ('t', 'Tx', {'src': '<p>'})])
+    yield item('multi', 'one-reference-many-consumers', ns('main', {}, [main, Tx], [P, C, C2]), rep=True)
     # a workflow parameter that is never used, a component parameter that is never used
     main = wf('main', [('unused', 'dU'), ('m', 'dM')], [('p', 'P', {'m': '%(m)s'})])
     yield item('multi', 'unused-workflow-parameter', ns('main', {'unused': 'zzz'}, [main], [P]), rep=True)
@@ -290,6 +302,40 @@ def family_multi(thorough):
     main = wf('main', [('a', 'MA'), ('b', 'MB')], [('w', 'Wq', {'a': '%(b)s-%(a)s'}), ('v', 'Wq', {'b': '%(a)s'}),
                                                    ('q', 'Q', {})])
     yield item('multi', 'swapped-parameter-names-nested', ns('main', {'b': 'EB'}, [main, Wq], [Q]), rep=True)
+
+
+# ---------------------------------------------------------------------------------------------- family: environments
+E_MODES = ('default', 'same', 'other', 'fwd', 'empty', 'none')
+
+
+def _env_args(mode):
+    if mode == 'default':
+        return {}
+    if mode == 'same':
+        return {'env': {'A': 'b'}}
+    if mode == 'other':
+        return {'env': {'X': 'y', 'N': 1}}
+    if mode == 'fwd':
+        return {'env': '%(e)s'}
+    if mode == 'empty':
+        return {'env': {}}
+    return {'env': 'none'}
+
+
+def family_environments(thorough):
+    """a dictionary parameter that becomes the environment of the component: defaulted, given, forwarded through 0-2
+    workflow levels, empty"""
+    P = comp('P', [('m', 'dP'), ('env', {'A': 'b'})], 'm=%(m)s')
+    P['command']['environment'] = '%(env)s'
+    for m1 in E_MODES:
+        for m2 in E_MODES:
+            for top in ('default', 'given'):
+                Wa = wf('Wa', [('e', {'Q': 'wa'})], [('p', 'P', dict(_env_args(m2), m='deep'))])
+                main = wf('main', [('e', {'Q': 'main'})], [('p', 'P', dict(_env_args(m1), m='top')),
+                                                          ('w', 'Wa', {'e': '%(e)s'} if m2 == 'fwd' else {})])
+                eargs = {} if top == 'default' else {'e': {'A': 'b'}}
+                yield item('environments', '%s-%s-%s' % (m1, m2, top), ns('main', eargs, [main, Wa], [P]),
+                           rep=(m1 == 'fwd' and m2 == 'fwd' and top == 'given'))
 
 
 # ---------------------------------------------------------------------------------------------- family: names
@@ -536,6 +582,6 @@ def canon(doc):
 
 
 def base_items(thorough):
-    for fam in (family_multi, family_literals, family_references, family_names, family_cycles):
+    for fam in (family_multi, family_literals, family_environments, family_references, family_names, family_cycles):
         for it in fam(thorough):
             yield it
